@@ -171,9 +171,11 @@ def run (j : Json) : Except String Json := do
   match res with
   | .error r =>
     return obj [("raise", Json.str r.name), ("verdict", Json.null), ("errors", ofList ofChars pre),
+                ("warnings", Json.arr #[]),
                 ("value_after", Json.null), ("spec_agrees", Json.bool agrees)]
   | .ok o =>
     return obj [("raise", Json.null), ("verdict", Json.bool o.verdict),
+                ("warnings", Json.arr #[]),     -- no built-in validator calls note_warning
                 ("errors", ofList ofChars o.errors),
                 ("value_after", if container then Json.str "<unchanged>" else valJson o.value),
                 ("spec_agrees", Json.bool agrees)]
